@@ -26,7 +26,7 @@ ASSUMPTIONS = ['closed configurations: every >x has a <x of the same order in so
                'the copy check itself is an isomorphism test)']
 MECHANISMS = [('cgsmiles.sample', 'MoleculeSampler.add_fragment'), ('cgsmiles.sample', 'MoleculeSampler.sample'),
               ('cgsmiles.cgsmiles_utils', 'find_complementary_bonding_descriptor'), ('cgsmiles.cgsmiles_utils', 'find_open_bonds')]
-REQUIRED_COUNTERS = ['samples_returned', 'growth_events']
+REQUIRED_COUNTERS = ['samples_returned']
 SIZES = {'quick': 2400, 'thorough': 60000}
 
 
